@@ -130,6 +130,9 @@ def case_wrapper(h, N, NW, k, default_k=False):
             cands = [NW]
         for NW_try in cands:
             _replay_one(h, M, N, NW_try, k, default_k)
+            kmax = min(int(math.floor(2 * NW_try)), N - 1)
+            if not default_k and kmax > k:
+                _replay_one(h, M, N, NW_try, kmax, False)       # the higher tapers exercise more of the sign logic
         return
     _claims(h, N, k, W, out, eig, t, kern)
 
